@@ -309,8 +309,7 @@ func (e *evaluator) callBuiltin(name string, args []Value) (Value, *rtErr) {
 		if len(args) != 1 {
 			return nil, wrongArgs(name)
 		}
-		fz := &freezer{arrays: make(map[*Array]*Array), maps: make(map[*Map]*Map)}
-		return e.freeze(args[0], fz)
+		return e.freeze(args[0], &freezer{})
 
 	case "format":
 		return nil, fail(Unsupported, "format")
@@ -429,26 +428,52 @@ func (e *evaluator) builtinRange(args []Value) (Value, *rtErr) {
 	return out, nil
 }
 
-// freezer remembers containers already frozen (shared and cyclic structures).
+// freezer remembers containers already frozen (shared and cyclic structures):
+// srcArrays[i] was frozen into dstArrays[i], likewise for maps.
 type freezer struct {
-	arrays map[*Array]*Array
-	maps   map[*Map]*Map
+	srcArrays, dstArrays []*Array
+	srcMaps, dstMaps     []*Map
+}
+
+func (fz *freezer) frozenArray(a *Array) *Array {
+	for i, s := range fz.srcArrays {
+		if s == a {
+			return fz.dstArrays[i]
+		}
+	}
+	return nil
+}
+
+func (fz *freezer) frozenMap(m *Map) *Map {
+	for i, s := range fz.srcMaps {
+		if s == m {
+			return fz.dstMaps[i]
+		}
+	}
+	return nil
 }
 
 // freeze converts mutable containers to immutable ones, recursively. A value
 // that is already fully immutable is returned as is.
 func (e *evaluator) freeze(v Value, fz *freezer) (Value, *rtErr) {
-	if err := e.step(); err != nil {
+	if err := e.enter(); err != nil {
 		return nil, err
 	}
+	f, err := e.freeze1(v, fz)
+	e.exit()
+	return f, err
+}
+
+func (e *evaluator) freeze1(v Value, fz *freezer) (Value, *rtErr) {
 	switch v := v.(type) {
 	case *Array:
 		if !v.Immutable {
-			if done, ok := fz.arrays[v]; ok {
+			if done := fz.frozenArray(v); done != nil {
 				return done, nil
 			}
 			out := &Array{Elems: make([]Value, len(v.Elems)), Immutable: true}
-			fz.arrays[v] = out
+			fz.srcArrays = append(fz.srcArrays, v)
+			fz.dstArrays = append(fz.dstArrays, out)
 			for i, el := range v.Elems {
 				f, err := e.freeze(el, fz)
 				if err != nil {
@@ -476,11 +501,12 @@ func (e *evaluator) freeze(v Value, fz *freezer) (Value, *rtErr) {
 		return &Array{Elems: elems, Immutable: true}, nil
 	case *Map:
 		if !v.Immutable {
-			if done, ok := fz.maps[v]; ok {
+			if done := fz.frozenMap(v); done != nil {
 				return done, nil
 			}
 			out := &Map{M: make(map[string]Value, len(v.M)), Immutable: true}
-			fz.maps[v] = out
+			fz.srcMaps = append(fz.srcMaps, v)
+			fz.dstMaps = append(fz.dstMaps, out)
 			for k, el := range v.M {
 				f, err := e.freeze(el, fz)
 				if err != nil {
